@@ -12,13 +12,13 @@ import (
 // relation to the output of the base program (C11 C12 C15: byte equality;
 // C15 on COFF: equality except symbol names and string table).
 type VariantCase struct {
-	Prop     string   `json:"prop"`
-	Base     []byte   `json:"base"`
-	Variants [][]byte `json:"variants"`
-	Labels   []string `json:"labels"` // what each variant does
-	Coff     bool     `json:"coff,omitempty"`
+	Prop     string     `json:"prop"`
+	Base     []byte     `json:"base"`
+	Variants [][]byte   `json:"variants"`
+	Labels   []string   `json:"labels"` // what each variant does
+	Coff     bool       `json:"coff,omitempty"`
 	Names    [][]string `json:"names,omitempty"` // C15 COFF: expected symbol names per variant (base first)
-	Cell_    string   `json:"cell"`
+	Cell_    string     `json:"cell"`
 }
 
 func (c *VariantCase) Kind() string { return "variant" }
